@@ -336,6 +336,62 @@ def rule_future_typestate(ctx):
     ctx.ok(cl.fq, "the caller awaits its future unshielded (cancelling the caller cancels the future)" if "future" in awaited else "the caller does not await the bare future", f"awaits: {awaited}")
 
 
+def _completes_future(stmts, recv_suffix="future"):
+    """Does this statement list complete (cancel / set_result / set_exception) a `<x>.future`?"""
+    for s_ in stmts:
+        for c in calls_in(s_):
+            if isinstance(c.func, ast.Attribute) and c.func.attr in ("cancel", "set_result", "set_exception") and ast.unparse(c.func.value).endswith(recv_suffix):
+                return True
+    return False
+
+
+def rule_shared_job_retired(ctx):
+    """R-C16-9: a hash job that several requests may wait for is retired however the task running it ends.
+
+    HashQueue.submit hands the job of a path that is already in flight to every later request for that path.
+    The receive loop cancels the handlers of a connection that sends garbage (R-C16-6), and such a handler may be
+    the one running the job: if the cancellation leaves the future pending, the job stays in flight and every
+    other step that needs the file waits for ever, as does the shutdown.
+    """
+    sub = ctx.prog.func("hash_queue.HashQueue.submit")
+    src = ast.unparse(sub.node)
+    dedup = "self.in_flight.get(path)" in src
+    cb = [c for c in calls_in(sub.node) if isinstance(c.func, ast.Attribute) and c.func.attr == "add_done_callback" and ast.unparse(c.func.value).endswith("future")]
+    ctx.check(dedup and len(cb) == 1, sub.fq, "an in-flight job is shared, and retired by a done-callback of its future", "a finished job is not taken out of in_flight (or jobs are no longer shared)", "in_flight.get + add_done_callback")
+    jd = ctx.prog.func("hash_queue.HashQueue._job_done")
+    top = [st_ for st_ in jd.node.body if "self.in_flight.pop(path" in ast.unparse(st_) and isinstance(st_, ast.Expr)]
+    ctx.check(len(top) == 1, jd.fq, "the callback retires the job unconditionally", "the job is retired only for some outcomes", "in_flight.pop at the top level of the callback")
+    # the runner: every await is covered by a finally (or a BaseException/CancelledError handler) that completes the future
+    rh = ctx.prog.func("executor.Executor.run_hash_job")
+    awaits = [a for a in ast.walk(rh.node) if isinstance(a, ast.Await)]
+    if not awaits:
+        raise AnalysisError("run_hash_job awaits nothing")
+
+    def covered(node):
+        for t in ast.walk(rh.node):
+            if isinstance(t, ast.Try) and any(node is x for b in t.body for x in ast.walk(b)):
+                if _completes_future(t.finalbody):
+                    return True
+                for h in t.handlers:
+                    names = ast.unparse(h.type) if h.type is not None else "BaseException"
+                    if ("BaseException" in names or "CancelledError" in names) and _completes_future(h.body) and any(isinstance(x, ast.Raise) for x in ast.walk(h)):
+                        return True
+        return False
+
+    for a in awaits:
+        in_cleanup = any(a is x for t in ast.walk(rh.node) if isinstance(t, ast.Try) for part in (t.finalbody, [s_ for h in t.handlers for s_ in h.body]) for b in part for x in ast.walk(b))
+        if in_cleanup:
+            continue
+        ctx.check(covered(a), rh.fq, f"`{ast.unparse(a)[:60]}` is covered by a cleanup that completes the job's future", "when the task running a hash job is cancelled (the requesting step's connection broke, or the builder stops), the future stays pending and the job stays in flight: later requests for the same path are handed the dead job and never return", "try/finally completes the future", where=ctx.where_of(rh, a))
+    # the inner function is only reachable through the covered entry
+    callers = [cs.caller.fq for sites in ctx.cg.sites.values() for cs in sites if callee_name(cs.node) == "_run_hash_job"]
+    ctx.check(set(callers) == {"executor.Executor.run_hash_job"}, "executor.Executor._run_hash_job", "only run through the covered entry point", f"called from {sorted(set(callers))}", "run_hash_job only")
+    # waiters shield the shared future from their own cancellation
+    rp = ctx.prog.func("builder.Builder.run_promoted_hash_jobs")
+    aw = [ast.unparse(a.value) for a in ast.walk(rp.node) if isinstance(a, ast.Await) and "future" in ast.unparse(a.value)]
+    ctx.check(bool(aw) and all("asyncio.shield(" in x for x in aw), rp.fq, "a waiter shields the shared future", f"awaits {aw}: cancelling one waiting request cancels the job for all of them", "asyncio.shield")
+
+
 RULES = [
     Rule("R-C16-1", "exposure gate", rule_exposure, min_instances=25),
     Rule("R-C16-2", "id pairing by data flow", rule_id_pairing, min_instances=11),
@@ -344,10 +400,14 @@ RULES = [
     Rule("R-C16-5", "failure mapping", rule_failure_mapping, min_instances=5),
     Rule("R-C16-6", "peers cannot wedge the server", rule_peers, min_instances=5),
     Rule("R-C16-8", "replies may be fragmented; connection state is per connection", rule_fragmentation, min_instances=5),
+    Rule("R-C16-9", "a shared hash job is retired however its task ends", rule_shared_job_retired, min_instances=5),
     Rule("R-C16-7", "pending futures are completed only when not cancelled", rule_future_typestate, min_instances=4),
 ]
 
 MUTANTS = [
+    Mutant("cancelled-hash-task-leaves-zombie", "executor.py", in_function("Executor.run_hash_job", replace_once("            if not hash_job.future.done():\n                hash_job.future.cancel()\n", "")), ("R-C16-9",)),
+    Mutant("hash-job-never-retired", "hash_queue.py", in_function("HashQueue.submit", replace_once("        job.future.add_done_callback(functools.partial(self._job_done, path))\n", "")), ("R-C16-9",)),
+    Mutant("hash-waiter-unshielded", "builder.py", in_function("Builder.run_promoted_hash_jobs", replace_once("await asyncio.shield(job.future)", "await job.future")), ("R-C16-9",)),
     Mutant("cancelled-send-forgets-entry", "rpc.py", in_function("SocketAsyncRPCClient.__call__", lambda s: s.replace("        except asyncio.CancelledError:", "        except asyncio.TimeoutError:", 1) if "        except asyncio.CancelledError:" in s else None), ("R-C16-2",)),
     Mutant("shared-task-set", "rpc.py", replace_once("_tasks: set[asyncio.Task] = attrs.field(init=False, factory=set)", "_tasks: set[asyncio.Task] = attrs.field(init=False, default=set())"), ("R-C16-8",)),
     Mutant("single-recv", "rpc.py", in_function("_SocketReader.readexactly", replace_once("        while len(self._buffer) < size:\n            fragment = self.sock.recv(4096)\n            if len(fragment) == 0:\n", "        if len(self._buffer) < size:\n            fragment = self.sock.recv(max(size, 4096))\n            if len(fragment) < size - len(self._buffer):\n")), ("R-C16-8",)),
